@@ -14,6 +14,11 @@ use std::time::{Duration, Instant, SystemTime};
 
 pub type W = Arc<Mutex<World>>;
 
+thread_local! {
+    /// location of the last panic (set by the panic hook; panics in the code under test are data)
+    pub static LAST_PANIC_LOC: std::cell::RefCell<String> = const { std::cell::RefCell::new(String::new()) };
+}
+
 pub fn lk(w: &W) -> MutexGuard<'_, World> {
     w.lock().unwrap_or_else(|e| e.into_inner())
 }
